@@ -247,7 +247,7 @@ func execSeq(op string) string {
 }
 
 func exec(op string) string {
-	return vh.SafeTimeout(5*time.Second, func() string { return execSeq(op) })
+	return vh.SafeTimeout(60*time.Second, func() string { return execSeq(op) })
 }
 
 func main() {
